@@ -55,7 +55,7 @@ def required_counters(tier):
         "nested_unhooked_inside_hooked": 30,
         "nested_hooked_inside_unhooked": 10,
         "pyc_files_created": 200,
-        "runs_with_cache_present": 100, "runs_with_failing_hooked_import": 20, "runs_read_only_cache": 20, "in_process_reimport": 5, "in_process_edit_and_reimport": 5, "runs_with_checking_disabled": 15, "source_edits.same_mtime_other_size": 10, "in_process_rehook_with_other_checker": 5, "histories.sources_older_than_the_library": 20, "runs_python_O": 30,
+        "runs_with_cache_present": 100, "runs_with_failing_hooked_import": 20, "runs_read_only_cache": 20, "in_process_reimport": 5, "in_process_edit_and_reimport": 5, "runs_with_checking_disabled": 15, "source_edits.same_mtime_other_size": 10, "in_process_rehook_with_other_checker": 5, "histories.sources_older_than_the_library": 20, "runs_python_O": 30, "deep_import.modules": 10,
     }
 
 
@@ -287,8 +287,101 @@ def run_history(rec, rng, key):
         shutil.rmtree(root, ignore_errors=True)
 
 
+DEEP_MOD = '''
+import numpy as np
+from jaxtyping import Float
+BIG = {big}
+def f(x: Float[np.ndarray, "a"], y: Float[np.ndarray, "a"]):
+    return "ran"
+'''
+DEEP_CHILD = r'''
+import importlib, json, sys, warnings
+warnings.filterwarnings("ignore")
+import numpy as np, jaxtyping, typeguard
+sys.path.insert(0, sys.argv[1])
+margins = json.loads(sys.argv[2])
+out = {{}}
+def at_depth(n, thunk):
+    if n <= 0:
+        return thunk()
+    return at_depth(n - 1, thunk)
+hook = jaxtyping.install_import_hook([f"jtv_deep_{{m}}" for m in margins], "typeguard.typechecked")
+for m in margins:
+    name = f"jtv_deep_{{m}}"
+    try:
+        if m == 0:
+            mod = importlib.import_module(name)
+        else:
+            mod = at_depth(sys.getrecursionlimit() - m, lambda: importlib.import_module(name))
+    except RecursionError:
+        sys.modules.pop(name, None)
+        out[str(m)] = {{"import": "RecursionError"}}
+        continue
+    except Exception as e:
+        sys.modules.pop(name, None)
+        out[str(m)] = {{"import": "exc:" + type(e).__name__}}
+        continue
+    o = {{"import": "ok", "wrapped": hasattr(mod.f, "__wrapped__")}}
+    try:
+        o["ill"] = mod.f(np.zeros(2, dtype="float32"), np.zeros(3, dtype="float32"))
+    except Exception as e:
+        o["ill"] = "exc:" + type(e).__name__
+    out[str(m)] = o
+hook.uninstall()
+print(json.dumps(out))
+'''
+
+
+def arm_deep_import(rec):
+    """run 1 imports hooked modules (each with a long expression) from deep inside the call stack, at a sweep of
+    distances from the recursion limit: an import either fails with RecursionError or yields an instrumented module;
+    run 2 (fresh process, same hook, ordinary depth, cache written by run 1 present) must find every module
+    instrumented and checking"""
+    root = tempfile.mkdtemp(prefix="jtv_c18_deep_")
+    try:
+        margins = list(range(60, 700, 40))
+        big = " + ".join(["1"] * 150)
+        for m in margins:
+            with open(os.path.join(root, f"jtv_deep_{m}.py"), "w") as f:
+                f.write(DEEP_MOD.format(big=big))
+        env = dict(os.environ)
+        env.pop("PYTHONDONTWRITEBYTECODE", None)
+        env.pop("JAXTYPING_DISABLE", None)
+        outs = []
+        for run, ms in enumerate((margins, [0] * 0 + margins)):
+            script = DEEP_CHILD.format()
+            arg = json.dumps(ms if run == 0 else [0])
+            if run == 1:
+                # ordinary depth: every module by its own name
+                script = script.replace('margins = json.loads(sys.argv[2])', 'names = json.loads(sys.argv[2]); margins = names').replace('if m == 0:', 'if True:')
+                arg = json.dumps(margins)
+            r = subprocess.run([sys.executable, "-c", script, root, arg], capture_output=True, text=True, env=env, timeout=600, cwd=root)
+            try:
+                outs.append(json.loads(r.stdout.strip().splitlines()[-1]))
+            except Exception:
+                rec.inconclusive.append(f"deep-import child (run {run}) failed: {r.stderr[-300:]}")
+                return
+        r1, r2 = outs
+        rec.count("deep_import.modules", len(margins))
+        rec.count("deep_import.recursion_errors_in_run1", sum(1 for v in r1.values() if v["import"] == "RecursionError"))
+        for m in margins:
+            a, b = r1[str(m)], r2[str(m)]
+            rec.case(("deep-import", m), True)
+            case = {"deep_import": True, "frames_below_recursion_limit": m, "run1": a, "run2": b}
+            if a["import"] == "ok" and (not a["wrapped"] or a["ill"] != "exc:TypeCheckError"):
+                rec.violation("wrong-instrumentation", case, f"run 1: hooked module imported {m} frames below the recursion limit came back wrapped={a['wrapped']}, ill-typed call -> {a['ill']}", mechanism="deep-import-yields-uninstrumented-module")
+                return
+            if b["import"] != "ok" or not b["wrapped"] or b["ill"] != "exc:TypeCheckError":
+                rec.violation("wrong-instrumentation", case, f"run 2 (ordinary depth, same hook, cache from run 1 in which the import {('succeeded' if a['import'] == 'ok' else 'failed with ' + a['import'])}): module is wrapped={b.get('wrapped')}, ill-typed call -> {b.get('ill')}, import {b['import']}", mechanism="cache-serves-uninstrumented-code-to-hooked-module")
+                return
+    finally:
+        shutil.rmtree(root, ignore_errors=True)
+
+
 def run_shard(rec, seed, shard, tier):
     warnings.filterwarnings("ignore")
+    if shard["i"] == 0:
+        arm_deep_import(rec)
     for k in range(HISTORIES[tier]):
         key = f"{seed}/C18/{shard['i']}/{k}"
         case = run_history(rec, random.Random(key), key)
